@@ -772,6 +772,19 @@ func runHistory(t *testing.T, h *History) (lines []string) {
 		leak := rs.pending
 		rs.mu.Unlock()
 		rs.emit("O\tLEAK\t%d", leak)
+		// what the backing store holds once everything has come to rest
+		if kl, ok := rs.inner.(interface {
+			Keys(prefix string) ([]string, error)
+		}); ok {
+			if ks, err := kl.Keys(""); err == nil {
+				sort.Strings(ks)
+				hs := make([]string, len(ks))
+				for i, k := range ks {
+					hs[i] = hx(k)
+				}
+				rs.emit("O\tKEYS\t%s", strings.Join(hs, ","))
+			}
+		}
 		// once returned, a response belongs to the caller: its header map must be what it was at return
 		if !raceMode {
 			for _, o := range returned {
